@@ -14,7 +14,7 @@ DEPTH = {
     "resolver": (6, 8), "spanner": (0, 0),
     # depth counts the free inputs after the preamble
     "deep-aff": (5, 6), "deep-affref": (5, 6), "deep-refbound": (5, 6), "deep-load": (6, 8), "deep-fb": (5, 6),
-    "deep-refresh": (5, 7), "deep-rr": (4, 5), "deep-ref2": (9, 12), "deep-fb2": (5, 7), "deep-fb3": (5, 7), "deep-fb4": (4, 6), "minmax": (5, 7),
+    "deep-refresh": (5, 7), "deep-rr": (4, 5), "deep-ref2": (9, 12), "deep-fb2": (5, 7), "deep-fb3": (5, 7), "deep-fb4": (4, 6), "minmax": (5, 7), "deep-fb5": (5, 7),
 }
 SIM = {"quick": (120, 25), "thorough": (1500, 40)}
 
@@ -81,7 +81,7 @@ def run(pid, tier, seed):
     rnd = random.Random(seed)
     fams = pool.PROP_FAMILIES[pid]
     if tier == "quick":
-        fams = [f for f in fams if f != "spanner"][:3 if pid in ("C05", "C06", "C01", "C08", "C02", "C03") else 2] + (["spanner"] if "spanner" in fams else [])
+        fams = [f for f in fams if f != "spanner"][:4 if pid == "C08" else 3 if pid in ("C05", "C06", "C01", "C02", "C03") else 2] + (["spanner"] if "spanner" in fams else [])
     scratch = vlib.Scratch("pool-" + pid)
     try:
         binp = pool.build_pool_harness(scratch)
@@ -92,7 +92,7 @@ def run(pid, tier, seed):
         for f in fams:
             qd, td = DEPTH[f]
             depth = qd if tier == "quick" else td
-            prelen = [0, 2, 3, 4, 5, 4, 5, 7, 9, 9][pool.FAMILIES[f].get("Pre", 0)]
+            prelen = [0, 2, 3, 4, 5, 4, 5, 7, 9, 9, 6][pool.FAMILIES[f].get("Pre", 0)]
             if depth:
                 depth += prelen
             simn, simd = SIM[tier]
